@@ -55,6 +55,11 @@ def expected_subcolumn(part: str, case: dict, cache: dict) -> tuple[np.ndarray, 
             if key not in cache:
                 cache[key] = gen.eval_num_label(fa["label"], frame)
             return cache[key], key
+        if fa["kind"] == "multi" and part.startswith(fa["label"] + "[") and part.endswith("]") and part[len(fa["label"]) + 1:-1] in fa["fields"]:
+            k = int(part[len(fa["label"]) + 1:-1])
+            from ..data import col_values
+
+            return np.array(col_values(frame, fa["base"]), dtype=float) ** (k + 1), key
         if fa["kind"] == "cat" and part.startswith(fa["label"] + "["):
             inner = part[len(fa["label"]) + 1:-1]
             lv = inner[2:] if inner.startswith("T.") else inner
